@@ -640,12 +640,12 @@ func (obj *DenseIntMatrixIterator) GET() Int {
   return obj.m.AT(obj.i, obj.j)
 }
 func (obj *DenseIntMatrixIterator) Ok() bool {
-  return obj.i < obj.m.rowMax && obj.j < obj.m.colMax
+  return obj.i < obj.m.rows && obj.j < obj.m.cols
 }
 func (obj *DenseIntMatrixIterator) next() {
-  if obj.j == obj.m.colMax-1 {
+  if obj.j == obj.m.cols-1 {
     obj.i = obj.i + 1
-    obj.j = obj.m.colOffset
+    obj.j = 0
   } else {
     obj.j = obj.j + 1
   }
